@@ -9,6 +9,7 @@ from ..util import (is_name, calls_in, callee_qual, deref, ancestors, evaluator_
                     handler_outcomes, completes_normally, handler_covers, in_handler_of, raised_class, is_subclass,
                     cls_name, fmt_witness)
 from .common import option_usage
+from ..pattern import match, matches
 
 info('C11',
      explanation='Static decision of: write-last ordering in Assign.glomit (on every path to the normal return '
@@ -49,6 +50,41 @@ def api_reaching_calls(ctx, u):
                 (isinstance(c.args[0], ast.Lambda) and p.unit_of(c.args[0]) in lam_to_api)):
             out.append(c)
     return out
+
+
+def assign_roles(ctx, u):
+    """local names of Assign.glomit by role"""
+    p = ctx.program
+    r = {}
+    for n in u.own_nodes():
+        if isinstance(n, ast.Assign):
+            b = match(n, '$op, $arg, $path = self.op, self.arg, self.path')
+            if b:
+                r.update(op=b['op'], arg=b['arg'], path=b['path'])
+            if isinstance(n.value, ast.Call) and callee_qual(p, u, n.value) == 'core.arg_val' and is_name(n.targets[0]):
+                r.setdefault('val', n.targets[0].id)
+    for n in ast.walk(u.node):
+        if isinstance(n, ast.If):
+            b = match(n.test, 'self.path.startswith(S)')
+            if b is not None and len(n.body) == 2 and len(n.orelse) == 2:
+                got = {}
+                for st in n.body:
+                    b1 = match(st, '$dt = scope[UP]')
+                    b2 = match(st, '$dp = self.path.from_t()')
+                    if b1:
+                        got['dest_target'] = b1['dt']
+                    if b2:
+                        got['dest_path'] = b2['dp']
+                ok_else = set()
+                for st in n.orelse:
+                    if got.get('dest_target') and matches(st, '%s = %s' % (got['dest_target'], u.params[1])):
+                        ok_else.add('t')
+                    if got.get('dest_path') and matches(st, '%s = self.path' % got['dest_path']):
+                        ok_else.add('p')
+                if len(got) == 2 and ok_else == {'t', 'p'}:
+                    r.update(got)
+                    r['root_split'] = n
+    return r
 
 
 @rule('C11.1')
@@ -100,7 +136,9 @@ def write_last(ctx):
     lu = lus[0]
     c = [c for c in calls_in(lu) if callee_qual(p, lu, c) == 'core._assign_op'][0]
     kw = {k.arg: k.value for k in c.keywords}
-    ok = is_name(kw.get('dest'), lu.params[0]) and all(is_name(kw.get(k), k) for k in ('op', 'arg', 'val', 'path', 'scope'))
+    roles = assign_roles(ctx, u)
+    ok = is_name(kw.get('dest'), lu.params[0]) and all(is_name(kw.get(k), roles.get(k)) for k in ('op', 'arg', 'val', 'path')) \
+        and is_name(kw.get('scope'), u.params[2])
     ctx.ob(ok, u, 'the write applies (op, arg, val) to the destination it is given: %s' % norm(c), node=c)
     ctx.floor(10)
 
@@ -122,9 +160,11 @@ def missing_tail(ctx):
         return
     h = hs[0]
     pae = h.ast.name
-    first = h.ast.body[0]
+    roles = assign_roles(ctx, u)
+    valv, opv, argv, pathv = roles.get('val'), roles.get('op'), roles.get('arg'), roles.get('path')
+    first = next((n for n in h.ast.body if isinstance(n, ast.If)), None)
     ok = isinstance(first, ast.If) and norm(first.test) == 'not self.missing' and isinstance(first.body[0], ast.Raise) \
-        and first.body[0].exc is None
+        and (first.body[0].exc is None or is_name(first.body[0].exc, pae))
     ctx.ob(ok, u, 'without a factory the access error propagates unchanged: %s' % norm(first))
     tail = [e for e in inh if isinstance(e.args[1], ast.Call) and callee_qual(p, u, e.args[1]) == 'mutation.Assign']
     ctx.require(len(tail) == 1, 'Assign.glomit: recursive tail assignment not found')
@@ -137,10 +177,10 @@ def missing_tail(ctx):
     # the tail carries the value and the same factory
     a = t.args[1]
     kw = {k.arg: k.value for k in a.keywords}
-    ok = len(a.args) >= 2 and is_name(a.args[1], 'val') and isinstance(kw.get('missing'), ast.Attribute) and kw['missing'].attr == 'missing'
+    ok = len(a.args) >= 2 and is_name(a.args[1], valv) and isinstance(kw.get('missing'), ast.Attribute) and kw['missing'].attr == 'missing'
     ctx.ob(ok, u, 'the tail assigns the value with the same factory: %s' % norm(a))
     st = stmt_of(t)
-    ctx.ob(isinstance(st, ast.Assign) and is_name(st.targets[0], 'val'), u, 'the filled factory object becomes the value to attach: %s' % norm(st))
+    ctx.ob(isinstance(st, ast.Assign) and is_name(st.targets[0], valv), u, 'the filled factory object becomes the value to attach: %s' % norm(st))
     # index agreement around the break point k = pae.part_idx
     env = {'__k__': (1, 0)}
     def idx(e):
@@ -159,14 +199,14 @@ def missing_tail(ctx):
         ok = False
     ctx.ob(ok, u, 'the tail is the path after the failing segment: %s' % norm(tail_path))
     opdef = [n for n in ast.walk(h.ast) if isinstance(n, ast.Assign) and isinstance(n.targets[0], ast.Tuple)
-             and [e.id for e in n.targets[0].elts if isinstance(e, ast.Name)] == ['op', 'arg']]
+             and [e.id for e in n.targets[0].elts if isinstance(e, ast.Name)] == [opv, argv]]
     try:
         ok = len(opdef) == 1 and isinstance(opdef[0].value, ast.Subscript) and norm(opdef[0].value.value) == 'self._orig_path.items()' \
             and idx(opdef[0].value.slice) == (1, 0)
     except NotAffine:
         ok = False
     ctx.ob(ok, u, 'the attach step is the failing segment itself: %s' % [norm(o) for o in opdef])
-    pdef = [n for n in ast.walk(h.ast) if isinstance(n, ast.Assign) and is_name(n.targets[0], 'path')]
+    pdef = [n for n in ast.walk(h.ast) if isinstance(n, ast.Assign) and is_name(n.targets[0], pathv)]
     try:
         ok = len(pdef) == 1 and isinstance(pdef[0].value, ast.Subscript) and isinstance(pdef[0].value.slice, ast.Slice) \
             and pdef[0].value.slice.lower is None and norm(pdef[0].value.value) == 'self._orig_path' \
@@ -175,9 +215,11 @@ def missing_tail(ctx):
         ok = False
     ctx.ob(ok, u, 'the destination is re-fetched through the existing prefix: %s' % [norm(x) for x in pdef])
     refetch = [e for e in inh if e is not t]
-    ok = len(refetch) == 1 and is_name(refetch[0].args[1], 'path') and is_name(refetch[0].args[0], 'dest_target')
+    ok = len(refetch) == 1 and is_name(refetch[0].args[1], pathv) and is_name(refetch[0].args[0], roles.get('dest_target'))
     st = stmt_of(refetch[0]) if refetch else None
-    ctx.ob(ok and isinstance(st, ast.Assign) and is_name(st.targets[0], 'dest'), u,
+    fst = stmt_of(fetch[0])
+    destv = fst.targets[0].id if isinstance(fst, ast.Assign) and is_name(fst.targets[0]) else None
+    ctx.ob(ok and isinstance(st, ast.Assign) and is_name(st.targets[0], destv), u,
            'existing intermediates are fetched, never replaced: %s' % (norm(st) if st is not None else None))
     # order inside the handler: build the tail first, then re-fetch (so a failing factory leaves the target untouched)
     if refetch:
@@ -207,13 +249,13 @@ def same_object(ctx):
     ok = len(avs) == 1 and is_name(avs[0].args[0], u.params[1]) and isinstance(avs[0].args[1], ast.Attribute) and avs[0].args[1].attr == 'val'
     ctx.ob(ok, u, 'the value is evaluated once as an argument on the current target: %s' % [norm(a) for a in avs])
     # S-rooted destinations are fetched from the enclosing scope
-    iff = [n for n in u.node.body if isinstance(n, ast.If) and 'startswith(S)' in norm(n.test)]
-    ok = len(iff) == 1
-    if ok:
-        b = {norm(s) for s in iff[0].body}
-        e = {norm(s) for s in iff[0].orelse}
-        ok = b == {'dest_target = scope[UP]', 'dest_path = self.path.from_t()'} and e == {'dest_target = target', 'dest_path = self.path'}
+    roles = assign_roles(ctx, u)
+    ok = 'root_split' in roles
     ctx.ob(ok, u, 'T-rooted destinations start at the target, S-rooted ones at the enclosing scope')
+    if ok:
+        evs = [e for e in evaluator_calls(p, u) if not in_handler_of(e)]
+        ctx.ob(len(evs) == 1 and is_name(evs[0].args[0], roles['dest_target']) and is_name(evs[0].args[1], roles['dest_path']), u,
+               'the parent is fetched from that start through the parent path: %s' % [norm(e) for e in evs])
     ctx.floor(4)
 
 
@@ -339,7 +381,7 @@ def default_assign_handlers(ctx):
     vals = [norm(r.value) for r in rets]
     ctx.ob(vals == ['False', '_set_sequence_item', 'operator.setitem', 'setattr'], u, 'assign handler discovery: %s' % vals)
     su = ctx.unit('mutation._set_sequence_item')
-    st = [n for n in su.own_nodes() if isinstance(n, ast.Assign)]
+    st = [n for n in su.own_nodes() if isinstance(n, ast.Assign) and isinstance(n.targets[0], ast.Subscript)]
     ok = len(st) == 1 and norm(st[0]) == '%s[int(%s)] = %s' % tuple(su.params)
     ctx.ob(ok, su, 'sequence assignment coerces the index with int(): %s' % [norm(s) for s in st])
     mod = p.modules['glom.mutation']
